@@ -320,3 +320,55 @@ fn total_version_id_wide() {
         }
     }
 }
+// XXX-EXPERIMENTS-BEGIN
+#[kani::proof]
+#[kani::unwind(8)]
+fn x_v1() {
+    let v: u128 = kani::any();
+    let b = BigUint::from(v);
+    let vals: Vec<&BigUint> = vec![&b];
+    let mut it = vals.into_iter();
+    let y = usize::deserialize(&mut it);
+    assert!(it.len() == 0);
+    if fits_usize(v) { assert!(y == Ok(v as usize)); } else { assert!(y.is_err()); }
+}
+#[kani::proof]
+#[kani::unwind(8)]
+fn x_v2() {
+    let v: u128 = kani::any();
+    let felts = [BigUint::from(v), small(1), small(2), small(3)];
+    let mut it = felts[..2].iter();
+    let y = usize::deserialize(&mut it);
+    assert!(it.len() == 1);
+    if fits_usize(v) { assert!(y == Ok(v as usize)); } else { assert!(y.is_err()); }
+}
+#[kani::proof]
+#[kani::unwind(8)]
+fn x_v3() {
+    let v: u128 = kani::any();
+    let felts = [BigUint::from(v), small(1), small(2), small(3)];
+    let n: usize = kani::any();
+    kani::assume(n <= 4);
+    let mut it = felts[..n].iter();
+    let y = usize::deserialize(&mut it);
+    if n > 0 && fits_usize(v) { assert!(y == Ok(v as usize)); } else { assert!(y.is_err()); }
+}
+#[kani::proof]
+#[kani::unwind(8)]
+fn x_v4() {
+    let v: u128 = kani::any();
+    let b = BigUint::from(v);
+    let mut it = std::iter::once(&b);
+    let y = usize::deserialize(&mut it);
+    assert!(it.len() == 0);
+    if fits_usize(v) { assert!(y == Ok(v as usize)); } else { assert!(y.is_err()); }
+}
+#[kani::proof]
+#[kani::unwind(8)]
+fn x_v5() {
+    let v: u128 = kani::any();
+    let b = BigUint::from(v);
+    let y = b.to_usize();
+    if fits_usize(v) { assert!(y == Some(v as usize)); } else { assert!(y.is_none()); }
+}
+// XXX-EXPERIMENTS-END
